@@ -16,7 +16,10 @@ EXPLANATION = (
     "forward transformer, IterationTerminationToken markers from the loop condition's skip port); iteration counts, "
     "the arrival permutation of the iteration tokens, the marker position, the interleaving of loop instances and "
     "the values are solver variables. A second lemma runs the real LoopCombinatorStep (iteration counters, "
-    "termination check-list) and a third the LoopTerminationCombinator."
+    "termination check-list) and a third the LoopTerminationCombinator. "
+    "Executor level (harness/C06_graph.py): the whole loop sub-graph wired exactly as the CWL translator wires a cwltool:Loop step is run by the real StreamFlowExecutor; "
+    "initial values, the limit (0..3/0..4 iterations per instance, 11-12 with concrete values) and windows of 2-4 scheduling decisions (at start-up, at iteration starts, at loop exit, in the termination cascade) are solver variables; "
+    "run() must return the last value / the list of all iteration values per instance, with exactly one token per instance on the loop output port, every step COMPLETED/SKIPPED and every port terminated."
 )
 ASSUMPTIONS = [
     "StubDatabase / DetLoop as in C01",
@@ -24,6 +27,10 @@ ASSUMPTIONS = [
     "(the forward transformer terminates only after the loop body, which terminates only after the loop condition step, whose termination needs the loop output of every instance; see DESIGN.md C06)",
     "iteration tokens of an instance carry tags <prefix>.0 .. <prefix>.(n-1) in ANY arrival order and the marker carries <prefix>.n (what LoopCombinator and the loop condition produce); instance prefixes are concrete ('0', '0.1', '0.10')",
     "n <= 3 iterations per instance with a fully symbolic arrival permutation; n in {10, 11, 12} with the in-order arrival perturbed by one symbolic transposition and a symbolic marker position",
+    "executor-level loop graph: real ForwardTransformer/LoopCombinatorStep/CWLLoopConditionalStep/CWLLoopOutput*Step/CombinatorStep(LoopTerminationCombinator)/ScatterStep/GatherStep/StreamFlowExecutor; stubs: the loop condition's JavaScript evaluation is replaced by `i < limit` (subclass overriding _eval only), "
+    "the loop body is a harness Transformer (i + 1, tag unchanged), the translator's workflow-output collector chain (CWLTokenTransformer -> ScheduleStep -> CWLTransferStep) is one forwarding Transformer, StubDatabase, utils.random_name/time_ns replaced by counters; "
+    "one loop variable i (optionally a second one, the limit, carried along without loop source), one loop instance or a scatter of 1-2 elements; schedules are FIFO except K (2-4) consecutive solver-chosen picks (each among the first 6 ready callbacks) in a window anchored at an event of the run; "
+    "code between the points that read symbolic values (condition, body, scheduling picks, final comparison) runs with CrossHair's tracer switched off (same path counts as the fully traced run, measured once: 150 paths, 306 s vs 10 s)",
 ]
 
 T_OUT = (
@@ -510,4 +517,8 @@ def specs(tier: str):
                 targets=T_TERM,
             )
         )
+    # --- executor level: the whole translator-wired loop graph run by StreamFlowExecutor (harness/C06_graph.py)
+    from harness.C06_graph import graph_specs
+
+    out += graph_specs(tier)
     return out
